@@ -44,7 +44,7 @@ func init() {
 					continue
 				}
 				for i, op := range c09Ops() {
-					if op.kind == "remove" || op.kind == "append" {
+					if op.kind == "remove" || op.kind == "append" || op.kind == "listappend" {
 						u = append(u, "converse#"+strconv.Itoa(i)+"#"+strconv.Itoa(ii))
 					}
 				}
